@@ -98,7 +98,10 @@ func (f rtFunc) RoundTrip(r *http.Request) (*http.Response, error) { return f(r)
 const parseInitialInterval = time.Hour + 7
 
 // PARSE <conn> <endErr> <errWithLast> <cfg> <stop> <lastID> <chunks>
-// cfg: "-" none | "r:<max>" ReadConfig{MaxEventSize} | "c:<cap|n>:<max>" Connection.Buffer(buf, max)
+// cfg: "-" none | "r:<max>" ReadConfig{MaxEventSize} | "c:<cap|n>:<max>[:w]" Connection.Buffer(buf, max); with ":w" the
+// stream is served to the connection's second attempt (the first gets a body that stops inside an event, after its id line: that ID
+// was never dispatched and does not count; the initial interval is 1 ms + 7 ns then): the buffer
+// settings hold for every attempt of a Connection
 func runParse(args []string) string {
 	if len(args) != 7 {
 		return "bad-args"
@@ -154,10 +157,14 @@ func runParse(args []string) string {
 	ctx, cancel := context.WithCancel(context.Background())
 	defer cancel()
 	attempts := 0
+	warm := len(cfg) == 4 && cfg[3] == "w"
 	client := sse.Client{
 		HTTPClient: &http.Client{Transport: rtFunc(func(r *http.Request) (*http.Response, error) {
 			attempts++
-			if attempts > 1 {
+			if warm && attempts == 1 {
+				return &http.Response{StatusCode: 200, Header: http.Header{"Content-Type": {"text/event-stream"}}, Body: io.NopCloser(strings.NewReader("id: warm-up\ndata: x")), Request: r}, nil
+			}
+			if attempts > 1 && !(warm && attempts == 2) {
 				return nil, ctx.Err()
 			}
 			return &http.Response{StatusCode: 200, Header: http.Header{"Content-Type": {"text/event-stream"}}, Body: rd, Request: r}, nil
@@ -165,8 +172,14 @@ func runParse(args []string) string {
 		ResponseValidator: sse.NoopValidator,
 		Backoff:           sse.Backoff{InitialInterval: parseInitialInterval, Jitter: -1, Multiplier: 1},
 	}
+	if warm {
+		client.Backoff.InitialInterval = time.Millisecond + 7
+	}
 	errOut, wait := "NO-RETRY", "-"
 	client.OnRetry = func(err error, d time.Duration) {
+		if warm && attempts == 1 {
+			return
+		}
 		var ce *sse.ConnectionError
 		if errors.As(err, &ce) {
 			errOut = errClass(ce.Err)
@@ -185,7 +198,13 @@ func runParse(args []string) string {
 		}
 		c.Buffer(buf, atoi(cfg[2]))
 	}
-	c.SubscribeToAll(func(e sse.Event) { events = append(events, showEvent(e)) })
+	c.SubscribeToAll(func(e sse.Event) {
+		if warm && attempts == 1 {
+			events = append(events, "WARMUP:"+showEvent(e))
+			return
+		}
+		events = append(events, showEvent(e))
+	})
 	err := c.Connect()
 	if !errors.Is(err, context.Canceled) || errOut == "NO-RETRY" {
 		errOut = "CONNECT-RETURNED:" + errClass(err) + ":" + errOut
